@@ -871,7 +871,32 @@ func (g *G) assignStmt() {
 		if t.Key == "int" {
 			key = fmt.Sprint(rx.Range(g.rt, "setkeyi", 0, 4))
 		}
-		switch rx.Weighted(g.rt, "mapassign", 6, 2, 2) {
+		switch rx.Weighted(g.rt, "mapassign", 6, 2, 2, 2) {
+		case 3:
+			if !t.Elem.integer() {
+				g.line("delete(%s, %s)", v.Name, key)
+				break
+			}
+			// a sweep whose result does not depend on the iteration order: every entry with an odd value is counted,
+			// deleted and re-inserted (or only deleted) with an even value; Go visits every entry that is in the map
+			// when the loop starts exactly once, and an entry re-created during the loop, visited again or not, is even
+			g.meta.feat("mapsweep")
+			n, k, e := g.fresh("sw"), g.fresh("k"), g.fresh("e")
+			g.line("%s := 0", n)
+			g.line("for %s, %s := range %s {", k, e, v.Name)
+			g.line("\tif %s%%2 != 0 {", e)
+			g.line("\t\t%s++", n)
+			g.line("\t\tdelete(%s, %s)", v.Name, k)
+			if rx.Chance(g.rt, "reinsert", 3, 4) {
+				g.line("\t\t%s[%s] = %s * 2", v.Name, k, e)
+			}
+			g.line("\t}")
+			g.line("}")
+			if t.Key == "int" {
+				g.line("fmt.Println(\"sweep\", %s, len(%s), %s[0], %s[1], %s[2], %s[3], %s[4])", n, v.Name, v.Name, v.Name, v.Name, v.Name, v.Name)
+			} else {
+				g.line("fmt.Println(\"sweep\", %s, len(%s), %s[\"k1\"], %s[\"k2\"], %s[\"k3\"], %s[\"zz\"])", n, v.Name, v.Name, v.Name, v.Name, v.Name)
+			}
 		case 0:
 			g.meta.feat("mapset")
 			g.line("%s[%s] = %s", v.Name, key, g.expr(t.Elem, 2))
